@@ -29,7 +29,7 @@ def ob_fault_atomic(p0: bool, t0: int, g0: List[int], p1: bool, t1: int, g1: Lis
     pre: 1 <= t0 <= 200 and 1 <= t1 <= 200 and 1 <= k <= 14
     pre: K.pre_ok(SCN, g0, g1, p0, False)
     pre: (not g1 and not p0) and (THOROUGH or (not g0 and k <= 13))
-    pre: not THOROUGH or all(g < 3 for g in g0)
+    pre: not THOROUGH or (all(g < 3 for g in g0) and (SCN not in (1, 2) or not g0))
     pre: THOROUGH or SCN not in (1, 2) or k in (1, 2, 5, 6, 7, 9, 11)
     post: _.startswith("ok")
     """
